@@ -1,33 +1,93 @@
-(* Gradient oracle for targets whose gradient is not a rational function (gamma via transforms,
-   phylogenetic posteriors): a table (position, dU) recorded per call from the implementation and
-   validated against autograd on a freshly built model.  [table_grad tab] is a FUNCTION of the
-   position (as the theorems about [leapfrog] require): it returns the recorded gradient of the
-   nearest recorded position (exact rational comparison of squared distances).
-   Executable adaptor for the NumQ run only; no proofs. *)
-From Coq Require Import QArith List.
-From Bignums Require Import BigQ.
+(* Exact dyadic instance of [Num] for the leapfrog runs, and the gradient-oracle adaptor: a value is m * 2^e with m a big integer
+   (Bignums) and e : Z, [None] = undefined.  Every double is such a number, sums and products of
+   such numbers are computed exactly WITHOUT any gcd normalisation (the rational instance NumQ
+   spends its time in gcds: 30 leapfrog steps produce 5000-bit numerators).  Division is defined
+   only by +-2^k (the model divides by 2 only); exp/ln/sqrt/max have no dyadic value.
+   Executable definitions only; the relation to the real-valued model is proved in
+   proof/P_leapfrog_param.v. *)
+From Coq Require Import QArith ZArith List.
+From Bignums Require Import BigZ.
 Import ListNotations.
-From TT Require Import Num NumQ M_leapfrog.
+From TT Require Import Num M_leapfrog.
 
-Definition dist2 (a b : list qo) : qo :=
-  nsum NumQ (map (fun d => mul NumQ d d) (vsub NumQ a b)).
+Definition dy := option (bigZ * Z).
 
-Definition qlt (a b : qo) : bool :=
-  match a, b with
-  | Some x, Some y => match BigQ.compare x y with Lt => true | _ => false end
-  | _, _ => false
+(* p = 2^k ? *)
+Fixpoint pos_log2_exact (p : positive) : option Z :=
+  match p with
+  | xH => Some 0%Z
+  | xO r => match pos_log2_exact r with Some k => Some (Z.succ k) | None => None end
+  | xI _ => None
   end.
 
-Fixpoint nearest (q : list qo) (tab : list (list qo * list qo)) (best : qo * list qo) : qo * list qo :=
+Definition dshift (m : bigZ) (k : Z) : bigZ := BigZ.shiftl m (BigZ.of_Z k).
+
+Definition d2 (f : bigZ -> bigZ -> bigZ) (a b : dy) : dy :=
+  match a, b with
+  | Some (m1, e1), Some (m2, e2) =>
+      if (e1 <=? e2)%Z then Some (f m1 (dshift m2 (e2 - e1)), e1)
+      else Some (f (dshift m1 (e1 - e2)) m2, e2)
+  | _, _ => None
+  end.
+Definition dmul (a b : dy) : dy :=
+  match a, b with
+  | Some (m1, e1), Some (m2, e2) => Some (BigZ.mul m1 m2, (e1 + e2)%Z)
+  | _, _ => None
+  end.
+Definition dopp (a : dy) : dy :=
+  match a with Some (m, e) => Some (BigZ.opp m, e) | None => None end.
+Definition ddiv (a b : dy) : dy :=
+  match a, b with
+  | Some (m1, e1), Some (m2, e2) =>
+      match BigZ.to_Z m2 with
+      | Zpos p => match pos_log2_exact p with Some k => Some (m1, (e1 - e2 - k)%Z) | None => None end
+      | Zneg p => match pos_log2_exact p with Some k => Some (BigZ.opp m1, (e1 - e2 - k)%Z) | None => None end
+      | Z0 => None
+      end
+  | _, _ => None
+  end.
+Definition dofQ (q : Q) : dy :=
+  match pos_log2_exact (Qden q) with
+  | Some k => Some (BigZ.of_Z (Qnum q), (- k)%Z)
+  | None => None
+  end.
+
+Definition NumDy : Num dy :=
+  mkNum dy (Some (BigZ.zero, 0%Z)) (Some (BigZ.one, 0%Z)) (d2 BigZ.add) (d2 BigZ.sub) dmul ddiv dopp dofQ
+        (fun _ => None) (fun _ => None) (fun _ => None) (fun _ _ => None).
+
+Definition sd (q : Q) : dy := dofQ q.
+
+(* harness output: [tag; mantissa; exponent], tag 0 = undefined *)
+Definition show_d (a : dy) : list bigZ :=
+  match a with
+  | Some (m, e) => [BigZ.one; m; BigZ.of_Z e]
+  | None => [BigZ.zero; BigZ.zero; BigZ.zero]
+  end.
+
+(* ---- gradient oracle: a table (position, dU) recorded per call from the implementation and
+   validated against autograd on a freshly built model.  [table_grad tab] is a FUNCTION of the
+   position (as the theorems about [leapfrog] require): the recorded gradient of the nearest
+   recorded position (exact comparison of squared distances). *)
+Definition dlt (a b : dy) : bool :=
+  match d2 BigZ.sub a b with
+  | Some (m, _) => match BigZ.compare m BigZ.zero with Lt => true | _ => false end
+  | None => false
+  end.
+
+Definition ddist2 (a b : list dy) : dy :=
+  nsum NumDy (map (fun d => dmul d d) (vsub NumDy a b)).
+
+Fixpoint dnearest (q : list dy) (tab : list (list dy * list dy)) (best : dy * list dy) : dy * list dy :=
   match tab with
   | [] => best
   | kg :: r =>
-      let d := dist2 (fst kg) q in
-      nearest q r (if qlt d (fst best) then (d, snd kg) else best)
+      let d := ddist2 (fst kg) q in
+      dnearest q r (if dlt d (fst best) then (d, snd kg) else best)
   end.
 
-Definition table_grad (tab : list (list qo * list qo)) (q : list qo) : list qo :=
+Definition table_grad_d (tab : list (list dy * list dy)) (q : list dy) : list dy :=
   match tab with
   | [] => []
-  | kg :: r => snd (nearest q r (dist2 (fst kg) q, snd kg))
+  | kg :: r => snd (dnearest q r (ddist2 (fst kg) q, snd kg))
   end.
